@@ -473,11 +473,11 @@ class Interp:
             return _pycmp(a.v, b.v, op)
         if isinstance(a, Int) and isinstance(b, Const) and isinstance(b.v, int) and not isinstance(b.v, bool):
             if not self.ot.has("0"):
-                raise NeedZero()
+                return self._cmp_literal(a, b.v, op)
             b = Int("0", b.v)
         if isinstance(b, Int) and isinstance(a, Const) and isinstance(a.v, int) and not isinstance(a.v, bool):
             if not self.ot.has("0"):
-                raise NeedZero()
+                return self._cmp_literal(b, a.v, {"<": ">", "<=": ">=", ">": "<", ">=": "<=", "==": "==", "!=": "!="}[op])
             a = Int("0", a.v)
         if isinstance(a, Int) and isinstance(b, Int):
             r = self.w.cmp_special(a, b, op)
@@ -485,6 +485,46 @@ class Interp:
                 return r
             return self.ot.cmp_terms(a.term(), b.term(), op)
         raise Unsupported(node, "comparison %r %s %r" % (a, op, b))
+
+    def set_order(self, st, node):
+        """the elements of a set in the order an iteration meets them: unspecified, so a set of two or more elements is also
+        walked in the reverse of its insertion order (one choice per source position; worlds opt out with set_order_matters=False)"""
+        items = list(st.items)
+        if len(items) >= 2 and getattr(self.w, "set_order_matters", True):
+            key = ("set-walked-in-reverse", getattr(node, "lineno", 0), getattr(node, "col_offset", 0))
+            if self.w.choose(key):
+                items.reverse()
+        return items
+
+    def _known_value(self, x):
+        """the integer an instant is known to be (the order type places it at the literal 0 plus a known offset), else None"""
+        if not isinstance(x, Int) or not self.ot.has("0"):
+            return None
+        for c in range(-16, 17):
+            try:
+                if self.ot.cmp_terms(x.term(), ("0", c), "=="):
+                    return c
+            except Exception:
+                return None
+        return None
+
+    def _cmp_literal(self, x, c, op):
+        """x (an instant base+k) against the integer literal c when the order type has no symbol for 0.  A world that opts in
+        (``lazy_zero_window = (lo, hi)``) places the literal 0 by choices: far below every instant, far above, or base + j == 0
+        for one j of the window - each placement is explored (run_all_choices).  Otherwise the driver is asked to re-enumerate."""
+        win = getattr(self.w, "lazy_zero_window", None)
+        if win is None:
+            raise NeedZero()
+        if self.w.choose(("zero-far-below", x.base)):
+            return op in (">", ">=", "!=")
+        if self.w.choose(("zero-far-above", x.base)):
+            return op in ("<", "<=", "!=")
+        j = win[1]
+        for cand in range(win[0], win[1]):
+            if self.w.choose(("zero-at", x.base, cand)):
+                j = cand
+                break
+        return _pycmp(x.k - j, c, op)        # base + j == 0, so x = k - j
 
     def int_eq(self, a, b):
         try:
@@ -666,7 +706,7 @@ class Interp:
         if isinstance(it, DictObj):
             it = ListObj(list(it.entries.keys()))
         if isinstance(it, SetObj):
-            it = ListObj(list(it.items))
+            it = ListObj(self.set_order(it, st))
         if isinstance(it, ListObj) or isinstance(it, TupleV):
             items = list(it.items)
             broke = False
@@ -864,7 +904,7 @@ class Interp:
         if isinstance(e, ast.Call):
             return self.call(e, env)
         if isinstance(e, ast.Lambda):
-            return LambdaV(e, dict(env))
+            return LambdaV(e, env)       # a closure reads its free names when it is CALLED (late binding), so the frame is shared
         if isinstance(e, ast.IfExp):
             if self.truth(self.eval(e.test, env), e.test):
                 return self.eval(e.body, env)
@@ -1010,6 +1050,10 @@ class Interp:
         r = self.w.binop(self, a, op, b, node)
         if r is not None:
             return r
+        # an instant whose value the order type fixes (it equals the literal 0 plus a known offset) is a plain number
+        ca, cb = self._known_value(a), self._known_value(b)
+        if (ca is not None or cb is not None) and not (ca is None and not isinstance(a, Const)) and not (cb is None and not isinstance(b, Const)):
+            return self.binop(Const(ca) if ca is not None else a, op, Const(cb) if cb is not None else b, node)
         raise Unsupported(node, "arithmetic %r %s %r" % (a, type(op).__name__, b))
 
     def compare(self, a, op, b, node):
@@ -1043,6 +1087,13 @@ class Interp:
         if sym in ("==", "!="):
             r = self.generic_eq(a, b, node)
             return r if sym == "==" else not r
+        if type(a) is type(b) and isinstance(a, (ListObj, TupleV)) and not getattr(a, "has_prefix", False) and not getattr(b, "has_prefix", False):
+            # sequences compare lexicographically: the first differing pair of elements decides, then the lengths
+            eq_op, strict = ast.Eq(), (ast.Lt() if sym in ("<", "<=") else ast.Gt())
+            for x, y in zip(a.items, b.items):
+                if not self.compare(x, eq_op, y, node):
+                    return bool(self.compare(x, strict, y, node))
+            return _pycmp(len(a.items), len(b.items), sym)
         raise Unsupported(node, "comparison %r %s %r" % (a, sym, b))
 
     def generic_eq(self, a, b, node):
@@ -1191,7 +1242,7 @@ class Interp:
             elif isinstance(it, DictObj):
                 seq = list(it.entries.keys())
             elif isinstance(it, SetObj):
-                seq = list(it.items)
+                seq = self.set_order(it, e) if not isinstance(e, ast.SetComp) else list(it.items)
             else:
                 # abstract sources (a range of instants, the interactions of the graph, ...): the world may offer
                 # generic elements, one per role an element can play
@@ -1199,12 +1250,13 @@ class Interp:
                 if seq is None:
                     raise _NotConcrete()
             for x in seq:
-                env3 = dict(env2)
-                self.assign(g.target, x, env3)
-                if all(self.truth(self.eval(c, env3), c) for c in g.ifs):
-                    rec(i + 1, env3)
+                # one frame for the whole comprehension: its loop variables are re-bound, not copied, per element (a lambda
+                # built inside sees the last binding when it is called later)
+                self.assign(g.target, x, env2)
+                if all(self.truth(self.eval(c, env2), c) for c in g.ifs):
+                    rec(i + 1, env2)
         try:
-            rec(0, env)
+            rec(0, dict(env))
         except _NotConcrete:
             return None
         if isinstance(e, ast.DictComp):
@@ -1267,6 +1319,8 @@ class Interp:
                             if isinstance(x, (ListObj, DictObj, SetObj)):
                                 raise AbstractRaise("TypeError", e, detail="unhashable set element")
                         return SetObj(seq)
+                    if isinstance(args[0], SetObj):
+                        seq = self.set_order(args[0], e)
                     return ListObj(seq) if f.name == "list" else TupleV(seq)
             if f.name == "frozenset" and len(args) <= 1:
                 seq = _concrete_seq(args[0]) if args else []
